@@ -2443,4 +2443,72 @@ theorem pushKid_accepted (lk : Path → Bool) (p : Path) : ∀ (ns : List Node) 
     exact pushKid_accepted lk p ns (base + 1) j i v σ h
 end
 
+
+/-! ## replacing a child keeps every value link -/
+
+theorem setF_srcs (ns : List Node) (j g t : Nat) : ((setF ns j g)[t]?).map Node.srcs = (ns[t]?).map Node.srcs := by
+  induction ns generalizing j t with
+  | nil => simp [setF]
+  | cons n ns ih =>
+    cases j with
+    | zero =>
+      cases n with
+      | leaf f s => cases t <;> simp [setF, Node.srcs]
+      | mac a b r oh s => simp [setF]
+    | succ j =>
+      cases t with
+      | zero => simp [setF]
+      | succ t => simpa [setF] using ih j t
+
+theorem usesOf_setF (k : Nat) (ns : List Node) (j g base : Nat) :
+    usesOf k (setF ns j g) base = usesOf k ns base := by
+  induction ns generalizing j base with
+  | nil => simp [setF]
+  | cons n ns ih =>
+    cases j with
+    | zero =>
+      cases n with
+      | leaf f s => simp [setF, usesOf, Node.srcs]
+      | mac a b r oh s => simp [setF]
+    | succ j => simp only [setF, usesOf]; rw [ih j (base + 1)]
+
+/-- the purge rule sees the same keyword arguments: every macro input is linked to the same (child, input)
+position as before, the replaced child's position now held by the replacement -/
+theorem link_setF (body : List Node) (rets : List Ret) (j g k : Nat) :
+    link (setF body j g) rets k = link body rets k := by
+  simp only [link, usesOf_setF]
+
+theorem kept_setF (body : List Node) (rets : List Ret) (j g : Nat) :
+    kept (setF body j g) rets = kept body rets := by
+  funext k; simp only [kept, link_setF]
+
+theorem invBody_setF (h : Bool) (kp : Nat → Bool) (inp : Nat → Val) (ns : List Node) (j g b : Nat) (σ : St) :
+    InvBody h kp inp (setF ns j g) b σ ↔ InvBody h kp inp ns b σ := by
+  induction ns generalizing j b with
+  | nil => simp [setF]
+  | cons n ns ih =>
+    cases j with
+    | zero =>
+      cases n with
+      | leaf f s =>
+        simp only [setF, InvBody, Inv, Node.srcs, true_and]
+        constructor
+        · rintro ⟨h1, h2⟩
+          refine ⟨?_, h2⟩
+          intro i sx hs; have := h1 i sx hs
+          cases sx <;> simpa [SrcOk, Node.dflt] using this
+        · rintro ⟨h1, h2⟩
+          refine ⟨?_, h2⟩
+          intro i sx hs; have := h1 i sx hs
+          cases sx <;> simpa [SrcOk, Node.dflt] using this
+      | mac a b' r oh s => simp [setF]
+    | succ j => simp only [setF, InvBody]; rw [ih j (b + 1)]
+
+/-- … and, the channel values being copied over, the synchronisation invariant holds for the new
+definition on the very same state -/
+theorem inv_setF (h : Bool) (args : List Arg) (body : List Node) (rets : List Ret) (oh : List Nat) (s : List Src)
+    (j g : Nat) (σ : St) :
+    Inv h (.mac args (setF body j g) rets oh s) σ ↔ Inv h (.mac args body rets oh s) σ := by
+  simp only [Inv, kept_setF, invBody_setF]
+
 end PwVerif.Macro
